@@ -71,6 +71,11 @@ def gen_tours(rng, obs, ntours=4, ncalls=10):
                 calls.append([kind, rng.choice(tour_nodes if rng.random() < 0.9 else allnd)])
             else:
                 calls.append([kind, tour_nodes[0]])
+        # removals next to the ends of a tour (for a dummy tour the neighbours are activities, not depots)
+        if len(tour_nodes) >= 3:
+            for (a, b) in [(tour_nodes[1], tour_nodes[1]), (tour_nodes[-2], tour_nodes[-2]), (tour_nodes[1], tour_nodes[-2])]:
+                if rng.random() < 0.6:
+                    calls.append([rng.choice(["remove", "removable"]), a, b])
         tours.append({"ty": ty, "base": base, "dummy": dummy, "calls": calls})
     return tours
 
@@ -177,6 +182,11 @@ def check_impl_with_spec(case, impl, model):
                 if got_removed != want_removed or (got_nodes is not None and got_nodes != want_nodes):
                     bad.append(("remove-ref", "%s: got nodes=[%s] removed=[%s], reference nodes=[%s] removed=[%s]"
                                 % (ctx, got_nodes, got_removed, want_nodes, want_removed)))
+        elif kind == "removable":
+            if "PANIC" in head:
+                bad.append(("remove-panic", "%s: %s" % (ctx, head)))
+            elif ("-> OK" in head) != (sp[4] == "OK"):
+                bad.append(("remove-ref", "%s: check_removable gives %s, the documented refusals give %s" % (ctx, head, sp[4])))
         elif kind == "subpath":
             if sp[4] == "ANY":
                 continue
